@@ -8,7 +8,7 @@ from gen import charset as G
 def main():
     chk = common.Check('C20')
     import charset_common as C
-    proved = chk.prove('I18n.Props.C20', generated=('charset',))
+    proved = chk.prove('I18n.Props.C20', generated=('charset', 'charsetcns'))
     problems = ' '.join(chk.lean.problems)
     driver_ok = os.path.exists(common.driver_path()) and not any('untranslatable' in s for s in chk.lean.translation.values()) \
         and 'Driver' not in problems and 'I18n.Model' not in problems and 'I18n.Generated' not in problems
@@ -31,7 +31,7 @@ def main():
     names = G.name_stream(chk.rng, known, 4000 if big else 700)
     sizes = dict(charmap_bytes=3000 if big else 500, charmap_texts=3000 if big else 500, scripts=20000 if big else 3000,
                  real_loop=1200 if big else 150, unrep=20000 if big else 3000, check_names=1500 if big else 150,
-                 euctw=12000 if big else 1500)
+                 euctw=12000 if big else 1500, euctw_all=big)
     corpus_names, C.CORPUS_BYTES[:] = C.corpus_inputs()
     names = [n for n in corpus_names if n not in set(names)] + names
     fam = C.build_streams(chk, names, sizes)
@@ -47,6 +47,7 @@ def main():
     fs = dict(codec_bytes=6000 if big else 700, codec_texts=4000 if big else 500, exhaustive=chk.thorough, cli=40 if big else 10,
               loop_scripts=15000 if big else 2500, loop_real=600 if big else 80, unrep_e2e=60 if big else 12)
     cex = []
+    cex += C.falsify_test_set(chk, names)[:2]          # first: it names the test set the code implements
     cex += C.falsify_classification(chk, names, ships)
     cex += C.falsify_codecs(chk, fs)
     cex += C.falsify_loop(chk, fs)
@@ -54,7 +55,7 @@ def main():
                       | {'utf-16', 'utf-7', 'idna', 'punycode', 'cp037', 'iso-8859-16', 'mac-roman', 'hz', 'iso2022_jp', 'unicode_escape'})
     cex += C.falsify_unrepresentable(chk, charsets, fs)
     cex += C.falsify_loader(chk, names)
-    chk.evaluations += sum(sum(v.values()) for v in chk.coverage.get('falsifier', {}).values() if isinstance(v, dict))
+    chk.evaluations += sum(sum(x for x in v.values() if isinstance(x, int)) for v in chk.coverage.get('falsifier', {}).values() if isinstance(v, dict))
     seen = set()
     fresh = 0
     for c in cex:
@@ -81,36 +82,51 @@ def main():
              'stateful ones; every language with a character list x every portable/extra charset. non-trivial = distinct protocol line',
         trusted=['Lean 4.33 kernel', 'axioms: propext, Classical.choice, Quot.sound only',
                  'tools/translate/charset2lean.py (dumps lib.encodings tables as loaded, data/encodings read independently, charmaps, '
-                 'CodecFacts of the running interpreter, single-byte tables of the system iconv)',
+                 'CodecFacts of the running interpreter incl. per-codec sensitivity to the test set, the alias table and the encodings modules, '
+                 'single-byte tables of the system iconv); tools/translate/charsetcns2lean.py (every answer of the system iconv for EUC-TW: '
+                 '17 x 8836 units, 1.1 million characters)',
                  'CPython: codecs.lookup / charmap_decode / charmap_build / charmap_encode are modelled from their C source and tied by the '
                  'charset-charmap stream; one registry name = one codec',
                  'glibc iconv(3): the contract (never writes more than *outbytesleft; E2BIG iff the output does not fit; on EILSEQ/EINVAL the '
-                 'offending sequence is left unconsumed) is ASSUMED by the loop theorems and observed, not proved, on every call of the run',
+                 'offending sequence is left unconsumed) is ASSUMED by the loop theorems, and the end-to-end theorems use a reference iconv '
+                 '(Spec/CharsetIconv.lean: unit by unit, room checked first); both observed, not proved, on every call of the run',
+                 'CPython codecs.lookup: modelled (C normalisation, encodings.search_function) and tied on the table and by the registry stream',
                  'the correspondence harness (tools/checks/charset_common.py, Driver/Charset.lean)'],
         explanation=EXPLANATION)
 
 EXPLANATION = (
     'Proved (Props/C20.lean). Finite quantifier, over the CodecFacts table regenerated each run (every codec name known to Python, gettext '
-    'or the tool): ascii_compatible_law, unknown_law, portable_any_law, proposal_law (the proposal is a row classified portable with the '
-    'same codecs.lookup name), model_matches_tool, portable_law_partial; portable_law_refuted (KOI8-T, known finding, replayed on the real '
-    'code each run). For all names: proposal_portable, proposal_sound. Pins: repertoire_pin, gettext_list_pin, tables_pin, '
-    'codec_search_extra. For all tables / byte strings / texts: charmap_decode_total, charmap_encode_total, charmap_roundtrip, '
-    'extra_charmaps_lossless, extra_charmaps_agree_iconv (shipped tables = the system iconv\'s), koi8t_table_roundtrip. For every iconv '
-    'behaviour: iconv_told_le_allocated; under the assumed POSIX contract of iconv(3): iconv_loop_terminates, iconv_loop_returns_produced, '
-    'iconv_loop_error_span (+ the encode versions). unrepresentable_iff, check_unrepresentable_iff, check_classification, check_total. '
-    'TEST-LEVEL ONLY (named): glibc honouring the contract (observed on every call of the loop-real stream); totality / round trip / '
-    'agreement with iconv for EUC-TW and the iconv-backed KOI8-T (falsifier: every single byte, lead x sampled trail bytes, plane '
-    'sequences, truncations; exhaustive two-byte units in thorough); "same codec name => decodes every byte sequence identically" '
-    '(probed with 416 byte strings per proposal); memory safety of the ctypes calls cannot be exhibited by a model. '
-    'FALSE of the code / environment and recorded: KOI8-T not portable (open), EUC-TW four-byte plane-1 form does not round-trip (open, '
-    'inherent to glibc\'s EUC-TW), charset=idna crashed get_unrepresentable_characters (fixed in /repo cf40a53). '
-    'EUC-TW: the structure of the encoding (glibc euc-tw.c: units, error kinds, the form the encoder writes) is modelled over abstract CNS '
-    '11643 tables and tied by the charset-euctw stream (tables asked of iconv unit by unit): euctw_roundtrip_partial (every byte string '
-    'made of canonical units round-trips), euctw_roundtrip_refuted (any tables agreeing with the dumped iconv facts: 8EA1A4A1 and 8EA3A1B8 '
-    'do not), euctw_decode_error_position. iconv_wchar_out_of_range: the binding as a general API raises ValueError when iconv hands back '
-    'a wide character above U+10FFFF (glibc: UTF-8 F5 8F 9E 8D -> WCHAR_T); no extra codec can produce one. '
-    'OUTSTANDING: the CNS 11643 tables themselves are not in Lean (EUC-TW totality/agreement with iconv stays test-level); the reverse '
-    'direction decode(encode(s)) = s is not stated.')
+    'or the tool): ascii_compatible_law, unknown_law, portable_any_law, proposal_law, model_matches_tool, portable_law_partial; '
+    'portable_law_refuted (KOI8-T, known finding, replayed on the real code each run). Structural reasons behind the table laws: '
+    'ascii_untested_bytes, ascii_verdict_bytewise (the verdict looks at the tested bytes only), ascii_test_set_sensitivity (who can tell a '
+    'widened / narrowed test set: VISCII, ISO-2022-KR / cp864 %, UTF-7 +, HZ ~; nothing else), registry_model_matches (a model of '
+    'codecs.lookup: C normalisation, alias table, encodings.<module>, the tool\'s search function), proposal_via_registry. For all names: '
+    'proposal_portable, proposal_sound, proposal_same_codec_every_name (under the registry model). Pins: repertoire_pin, gettext_list_pin, '
+    'tables_pin, codec_search_extra. Charmap codecs, all tables / byte strings / texts: charmap_decode_total, charmap_encode_total, '
+    'charmap_roundtrip, charmap_encode_decode (+ _needs_trie), charmap_bijection, charmap_ok_iff, charmap_encode_error_position, '
+    'charmap_decode_error_position; extra_charmaps_lossless, extra_charmaps_bijective, extra_charmaps_agree_iconv, koi8t_table_roundtrip, '
+    'koi8t_table_bijective. EUC-TW over the tables of the system iconv (Generated/CharsetCns*: every unit r c / 8E A0+p r c, p = 1..16, and '
+    'every character U+0080..U+10FFFF asked of glibc; the kernel passes over all of it in Lemmas/CharsetCnsK1..K7): euctw_tables_pin, '
+    'euctw_decode_total, euctw_roundtrip (iff no redundant unit), euctw_noninjective_exactly (redundant = four-byte plane 1, and the one unit '
+    '8E A3 A1 B8), euctw_encode_short_form, euctw_encode_decode, euctw_encode_drops_tags; over abstract tables: euctw_roundtrip_partial, '
+    'euctw_roundtrip_refuted, euctw_decode_error_position. iconv binding, every iconv behaviour: iconv_told_le_allocated, '
+    'iconv_loop_schedule; under the assumed POSIX contract: iconv_loop_terminates, iconv_loop_rounds_log, iconv_loop_buffer_bound, '
+    'iconv_loop_returns_produced, iconv_loop_error_span (+ the encode versions); non_doubling_loop_diverges; iconv_wchar_out_of_range. '
+    'End to end (the loop composed with a reference iconv for the charset): euctw_codec_decode, euctw_codec_encode, euctw_codec_roundtrip, '
+    'koi8t_codec. loader_decode_total. unrepresentable_iff, check_unrepresentable_iff, check_classification, check_total, '
+    'extra_codecs_encode_ok (EncodeOk is a theorem for the charmap codecs and EUC-TW). '
+    'TEST-LEVEL ONLY (named): that glibc behaves like the reference iconv (stream charset-reficonv: every conversion call of the run, return '
+    'code / input consumed / bytes written, compared with the model; the loop-real stream replays the recorded calls through the model of the '
+    'loop); that glibc segments a byte string into units as eucTwUnit does (streams charset-euctw and charset-euctw-real, the latter over the '
+    'generated tables without an oracle, incl. the predicted round-trip flag); the registry model beyond the 600 rows (stream '
+    'charset-registry, ~4000 spelling variants); "same codec name => decodes every byte sequence identically" (416 byte strings per '
+    'proposal); memory safety of the ctypes calls cannot be exhibited by a model. '
+    'FALSE of the code / environment and recorded: KOI8-T not portable (open), EUC-TW redundant units do not round-trip (open, inherent to '
+    'glibc\'s EUC-TW; the class is now exact), charset=idna crashed get_unrepresentable_characters and the loaders (fixed in /repo cf40a53, '
+    'ded8ac2). Noted, not a clause: decode(encode(s)) = s fails for the TAG characters U+E0000..E007F, which glibc drops '
+    '(\'a\\U000E0041b\'.encode(\'EUC-TW\') == b\'ab\'). '
+    'OUTSTANDING: nothing named by the previous round remains outside Lean except what is inherently environment: glibc\'s C code '
+    '(segmentation, contract) and CPython\'s C code (charmap functions, registry) are modelled and tied, not verified.')
 
 if __name__ == '__main__':
     common.main_wrapper(main)
